@@ -17,6 +17,7 @@ use std::sync::Arc;
 use std::time::Duration;
 
 use egg::{Id, Language};
+use futures::FutureExt;
 use futures::stream::{BoxStream, StreamExt};
 use futures_async_stream::try_stream;
 use itertools::Itertools;
@@ -546,34 +547,48 @@ impl<S: Storage> Builder<S> {
                 format!("{id}.{short}"),
             )
         };
+        // if the operator panics its subscribers must see an error, not the end of the stream
+        let tx_panic = tx.clone();
         let handle = tokio::task::Builder::default()
             .name(&format!("{id}.{name}"))
             .spawn(
                 async move {
                     #[cfg(risinglight_verif)]
                     crate::verif::adopt(verif_actor);
-                    #[cfg(risinglight_verif)]
-                    let mut verif_chunk = 0usize;
-                    while let Some(item) = stream.next().await {
-                        if let Ok(chunk) = &item {
-                            output_row_counter.inc(chunk.cardinality() as _);
-                        }
+                    let run = async move {
                         #[cfg(risinglight_verif)]
-                        let item = {
-                            let fault = crate::verif::fault_point(&verif_op, verif_chunk);
-                            verif_chunk += 1;
-                            match fault {
-                                Some(crate::verif::Fault::Panic) => panic!("verif: injected panic"),
-                                Some(crate::verif::Fault::Error) => {
-                                    Err(ExecutorError::aborted())
-                                }
-                                None => item,
+                        let mut verif_chunk = 0usize;
+                        while let Some(item) = stream.next().await {
+                            if let Ok(chunk) = &item {
+                                output_row_counter.inc(chunk.cardinality() as _);
                             }
-                        };
-                        if tx.broadcast(item).await.is_err() {
-                            // all receivers are dropped, stop the task.
-                            return;
+                            #[cfg(risinglight_verif)]
+                            let item = {
+                                let fault = crate::verif::fault_point(&verif_op, verif_chunk);
+                                verif_chunk += 1;
+                                match fault {
+                                    Some(crate::verif::Fault::Panic) => {
+                                        panic!("verif: injected panic")
+                                    }
+                                    Some(crate::verif::Fault::Error) => {
+                                        Err(ExecutorError::aborted())
+                                    }
+                                    None => item,
+                                }
+                            };
+                            if tx.broadcast(item).await.is_err() {
+                                // all receivers are dropped, stop the task.
+                                return;
+                            }
                         }
+                    };
+                    if let Err(panic) = std::panic::AssertUnwindSafe(run).catch_unwind().await {
+                        let message = (panic.downcast_ref::<&str>().map(|s| s.to_string()))
+                            .or_else(|| panic.downcast_ref::<String>().cloned())
+                            .unwrap_or_else(|| "unknown panic".into());
+                        let _ = tx_panic
+                            .broadcast(Err(ExecutorError::panicked(message)))
+                            .await;
                     }
                 }
                 .instrument(tracing::info_span!("executor", id = usize::from(id), name))
